@@ -154,9 +154,11 @@ func (w *verifWorld) open(d, n string) *verifHandle {
 	return h
 }
 
-func (w *verifWorld) readAt(h *verifHandle, off, length uint64) {
+func (w *verifWorld) readAt(h *verifHandle, off, length uint64) { w.readAtN(h, off, length, 4) }
+
+func (w *verifWorld) readAtN(h *verifHandle, off, length, maxLen uint64) {
 	verifAssume(off < 1<<63) // representable as off_t
-	verifAssume(length <= 4)
+	verifAssume(length <= maxLen)
 	want := w.ref.readAt(h.ref, off, length)
 	var gm, gd []byte
 	w.valid("readat", func() { gm = w.mem.ReadAt(h.mem, off, length) }, func() { gd = w.dirfs.ReadAt(h.dir, off, length) })
@@ -188,16 +190,158 @@ func (w *verifWorld) observe() {
 			}
 			h := w.open(d, n)
 			total := uint64(len(h.ref.ino.data))
-			w.readAt(h, 0, total+1)
+			w.readAtN(h, 0, total+1, total+1)
 		}
 	}
 	// descriptors that are still open for reading keep seeing their (possibly unlinked) file
 	for _, h := range w.hs {
 		if h.ref.mode == 2 {
 			total := uint64(len(h.ref.ino.data))
-			w.readAt(h, 0, total+1)
+			w.readAtN(h, 0, total+1, total+1)
 		}
 	}
+}
+
+// scripted operations for the scenario harness (same comparisons as step)
+func (w *verifWorld) create(d, n string) *verifHandle {
+	rd, rok := w.ref.create(d, n)
+	var mf, df File
+	var mok, dok bool
+	w.valid("create", func() { mf, mok = w.mem.Create(d, n) }, func() { df, dok = w.dirfs.Create(d, n) })
+	w.assert("create/mem-ok", mok == rok)
+	w.assert("create/dir-ok", dok == rok)
+	if !rok {
+		return nil
+	}
+	h := &verifHandle{mem: mf, dir: df, ref: rd}
+	w.hs = append(w.hs, h)
+	return h
+}
+
+func (w *verifWorld) appendTo(h *verifHandle, data []byte) {
+	keep := verifClone(data)
+	w.ref.appendTo(h.ref, data)
+	w.valid("append", func() { w.mem.Append(h.mem, data) }, func() { w.dirfs.Append(h.dir, data) })
+	w.assert("append/arg-untouched", verifBytesEq(data, keep))
+	if len(data) > 0 {
+		data[0] ^= 0xff
+	}
+}
+
+func (w *verifWorld) closeH(h *verifHandle) {
+	h.ref.mode = 0
+	w.valid("close", func() { w.mem.Close(h.mem) }, func() { w.dirfs.Close(h.dir) })
+}
+
+func (w *verifWorld) del(d, n string) {
+	w.ref.remove(d, n)
+	w.valid("delete", func() { w.mem.Delete(d, n) }, func() { w.dirfs.Delete(d, n) })
+}
+
+func (w *verifWorld) link(od, on, nd, nn string) {
+	rok := w.ref.link(od, on, nd, nn)
+	var mok, dok bool
+	w.valid("link", func() { mok = w.mem.Link(od, on, nd, nn) }, func() { dok = w.dirfs.Link(od, on, nd, nn) })
+	w.assert("link/mem-ok", mok == rok)
+	w.assert("link/dir-ok", dok == rok)
+}
+
+func (w *verifWorld) atomic(d, n string, data []byte) {
+	w.ref.atomicCreate(d, n, data)
+	w.valid("atomiccreate", func() { w.mem.AtomicCreate(d, n, data) }, func() { w.dirfs.AtomicCreate(d, n, data) })
+}
+
+// read of a fixed length at a symbolic offset in [lo, hi]
+func (w *verifWorld) readWindow(h *verifHandle, lo, hi, length uint64) {
+	off := verifNondetU64("off")
+	verifAssume(off >= lo)
+	verifAssume(off <= hi)
+	w.readAtN(h, off, length, length)
+}
+
+// verifC12Scenarios: longer scripted histories with symbolic data and read windows — patterns a
+// history of length ≤ 5 over two names does not reach (state kept across many operations,
+// descriptor numbers ≥ 4, files longer than a few bytes or than 4096 bytes, many directory entries).
+func verifC12Scenarios() {
+	w := verifNewWorld(2)
+	w.names = []string{"a", "b", "c", "d", "e", "f"}
+	switch verifChoose(6) {
+	case 0: // delete and re-create under an open read descriptor
+		h := w.create("d0", "a")
+		w.appendTo(h, verifNondetBytes("x", 3))
+		w.closeH(h)
+		r1 := w.open("d0", "a")
+		w.del("d0", "a")
+		h2 := w.create("d0", "a")
+		w.appendTo(h2, verifNondetBytes("y", 2))
+		w.readWindow(r1, 0, 3, 3)
+		w.closeH(h2)
+		r2 := w.open("d0", "a")
+		w.readWindow(r2, 0, 2, 2)
+		w.readWindow(r1, 0, 3, 3)
+	case 1: // two links, then the original name goes away
+		h := w.create("d0", "a")
+		w.appendTo(h, verifNondetBytes("x", 2))
+		w.closeH(h)
+		w.link("d0", "a", "d1", "b")
+		w.link("d0", "a", "d0", "c")
+		w.del("d0", "a")
+		w.link("d0", "c", "d1", "b") // target exists
+		rb := w.open("d1", "b")
+		w.readWindow(rb, 0, 2, 2)
+		w.del("d1", "b")
+		w.list("d0")
+		w.list("d1")
+		w.readWindow(rb, 0, 2, 2)
+	case 2: // descriptor churn: numbers grow past 4, closed ones are never confused with open ones
+		h := w.create("d0", "a")
+		w.appendTo(h, verifNondetBytes("x", 2))
+		w.closeH(h)
+		g := w.create("d0", "b")
+		w.appendTo(g, verifNondetBytes("y", 1))
+		r1 := w.open("d0", "a")
+		r2 := w.open("d0", "a")
+		r3 := w.open("d0", "a")
+		w.closeH(r2)
+		w.appendTo(g, verifNondetBytes("z", 1))
+		w.closeH(g)
+		r4 := w.open("d0", "b")
+		r5 := w.open("d0", "a")
+		w.closeH(r1)
+		w.readWindow(r3, 0, 2, 2)
+		w.readWindow(r4, 0, 2, 2)
+		w.readAtN(r5, 1, 2, 2)
+	case 3: // a file of 9 bytes written in two appends, re-read through a fresh descriptor
+		h := w.create("d1", "e")
+		w.appendTo(h, verifNondetBytes("x", 5))
+		r0 := w.open("d1", "e")
+		w.appendTo(h, verifNondetBytes("y", 4))
+		w.closeH(h)
+		w.readWindow(r0, 3, 6, 9)
+		r1 := w.open("d1", "e")
+		w.readWindow(r1, 4, 5, 3)
+	case 4: // a file longer than 4096 bytes, read across that offset
+		h := w.create("d0", "f")
+		w.appendTo(h, verifNondetBytes("big", 4094))
+		w.appendTo(h, verifNondetBytes("tail", 5))
+		w.closeH(h)
+		r := w.open("d0", "f")
+		w.readWindow(r, 4092, 4097, 6)
+		w.readAtN(r, 1, 3, 3)
+	case 5: // six entries in one directory, one of them removed, one replaced atomically
+		for _, n := range w.names {
+			h := w.create("d0", n)
+			w.appendTo(h, verifNondetBytes("c", 1))
+			w.closeH(h)
+		}
+		w.list("d0")
+		w.del("d0", w.names[verifChoose(len(w.names))])
+		w.list("d0")
+		w.atomic("d0", w.names[verifChoose(len(w.names))], verifNondetBytes("n", 2))
+		w.list("d0")
+	}
+	w.observe()
+	verifCover("c12/history")
 }
 
 func verifC12History(k, ndirs, maxData int) {
@@ -225,3 +369,21 @@ func verifC12TwoDirs()  { verifC12History(2, 2, 2) }
 func verifC12Thorough() { verifC12History(4, 1, 1) }
 func verifC12K5()       { verifC12History(5, 1, 1) }
 func verifC12TwoDirs3() { verifC12History(3, 2, 2) }
+
+// the kernel hands out directory entries in arbitrary chunks (getdents may return fewer entries
+// than fit): List must keep reading until the end of the directory
+func verifC12ShortDir() {
+	w := verifNewWorld(1)
+	w.names = []string{"a", "b", "c", "d"}
+	n := 2 + verifChoose(3)
+	for _, nm := range w.names[:n] {
+		h := w.create("d0", nm)
+		w.closeH(h)
+	}
+	verifKernelShortDir(true)
+	w.list("d0")
+	w.del("d0", "a")
+	w.list("d0")
+	verifKernelShortDir(false)
+	verifCover("c12/list")
+}
